@@ -26,11 +26,11 @@ Theorem C02_calendar_no_overflow :
      is_some (year_plus_m y dy)).
 Proof.
   split; [|split; [|split; [|split]]].
-  - intros z Hz. destruct (C11.Properties.C11_civil_days_roundtrip z Hz) as (y & m & d & E & _). exact (some_intro _ _ _ E).
-  - intros y m d Hy He. destruct (C11.Properties.C11_days_civil_roundtrip y m d Hy He) as (z & E & _). exact (some_intro _ _ _ E).
-  - intros z Hz. exact (some_intro _ _ _ (C11.Properties.C11_weekday_from_days z Hz)).
-  - intros y m dm Hy Hm Hd Hr. exact (some_intro _ _ _ (C11.Properties.C11_year_month_plus y m dm Hy Hm Hd Hr)).
-  - intros y dy Hy Hd Hr. exact (some_intro _ _ _ (C11.Properties.C11_year_plus y dy Hy Hd Hr)).
+  - intros z Hz. pose proof (C11.Properties.C11_civil_days_roundtrip z Hz) as HH. ok_from HH.
+  - intros y m d Hy He. pose proof (C11.Properties.C11_days_civil_roundtrip y m d Hy He) as HH. ok_from HH.
+  - intros z Hz. (pose proof (C11.Properties.C11_weekday_from_days z Hz) as HH; ok_from HH).
+  - intros y m dm Hy Hm Hd Hr. (pose proof (C11.Properties.C11_year_month_plus y m dm Hy Hm Hd Hr) as HH; ok_from HH).
+  - intros y dy Hy Hd Hr. (pose proof (C11.Properties.C11_year_plus y dy Hy Hd Hr) as HH; ok_from HH).
 Qed.
 Print Assumptions C02_calendar_no_overflow.
 End Cal.
